@@ -308,8 +308,8 @@ func streamProbes(s *shape, pause time.Duration) (ps []*probe) {
 	for _, cuts := range [][]int{{14}, {2}, {1}, {22}, {14, 24}, {2 + n - 1}} {
 		ps = append(ps, &probe{
 			family: "segmented", only: "stream",
-			desc:   fmt.Sprintf("honest frame of the complete base query delivered in segments cut at stream offsets %v with pauses", cuts),
-			build:  split(s.base, cuts...),
+			desc:  fmt.Sprintf("honest frame of the complete base query delivered in segments cut at stream offsets %v with pauses", cuts),
+			build: split(s.base, cuts...),
 		})
 	}
 
@@ -330,7 +330,7 @@ func streamProbes(s *shape, pause time.Duration) (ps []*probe) {
 	for _, k := range []int{14, 22, 2, 1} {
 		ps = append(ps, &probe{
 			family: "segmented-rest-never", only: "stream",
-			desc:   fmt.Sprintf("honest frame of the complete base query: the first %d stream bytes arrive, the rest never", k),
+			desc: fmt.Sprintf("honest frame of the complete base query: the first %d stream bytes arrive, the rest never", k),
 			build: func(id uint16) built {
 				return built{segs: []seg{{data: tbench.Frame(s.base(id))[:k]}}}
 			},
@@ -339,7 +339,7 @@ func streamProbes(s *shape, pause time.Duration) (ps []*probe) {
 
 	ps = append(ps, &probe{
 		family: "segmented-rest-never", only: "stream",
-		desc:   "honest frame of the complete long query: prefix and header arrive, the rest never",
+		desc: "honest frame of the complete long query: prefix and header arrive, the rest never",
 		build: func(id uint16) built {
 			return built{segs: []seg{{data: tbench.Frame(s.longQuery(id))[:14]}}}
 		},
@@ -364,7 +364,7 @@ func doqProbes(s *shape, pause time.Duration) (ps []*probe) {
 
 	ps = append(ps, &probe{
 		family: "doq-wrong-prefix", only: "doq",
-		desc:   "header-only message (QDCOUNT=1) announced as the length of a complete query, FIN",
+		desc: "header-only message (QDCOUNT=1) announced as the length of a complete query, FIN",
 		build: func(id uint16) built {
 			return built{segs: []seg{{data: tbench.FrameWithPrefix(uint16(n), s.base(id)[:12])}}}
 		},
@@ -373,7 +373,7 @@ func doqProbes(s *shape, pause time.Duration) (ps []*probe) {
 	for _, c := range []int{14, 1, 2 + n - 3} {
 		ps = append(ps, &probe{
 			family: "doq-segmented", only: "doq",
-			desc:   fmt.Sprintf("honest complete base query written to the stream in two parts cut at stream offset %d, then FIN", c),
+			desc: fmt.Sprintf("honest complete base query written to the stream in two parts cut at stream offset %d, then FIN", c),
 			build: func(id uint16) built {
 				raw := tbench.Frame(s.base(id))
 
@@ -384,7 +384,7 @@ func doqProbes(s *shape, pause time.Duration) (ps []*probe) {
 
 	ps = append(ps, &probe{
 		family: "doq-segmented", only: "doq",
-		desc:   "honest header-only message (QDCOUNT=1) written in two parts, then FIN",
+		desc: "honest header-only message (QDCOUNT=1) written in two parts, then FIN",
 		build: func(id uint16) built {
 			raw := tbench.Frame(tbench.WithHeader(s.base(id)[:12], tbench.FlagRD, [4]uint16{1, 0, 0, 0}))
 
@@ -402,7 +402,7 @@ func dohGetProbes(s *shape) (ps []*probe) {
 	for _, k := range []int{full - 1, full - 2, full - 3, full - 4, 16, 17, 15, 2, 1, 0} {
 		ps = append(ps, &probe{
 			family: "doh-get-short-param", only: "doh-get",
-			desc:   fmt.Sprintf("dns= parameter (%d characters for the complete base query) cut to %d characters", full, k),
+			desc: fmt.Sprintf("dns= parameter (%d characters for the complete base query) cut to %d characters", full, k),
 			build: func(id uint16) built {
 				t := tbench.Base64URL(s.base(id))[:k]
 
@@ -413,7 +413,7 @@ func dohGetProbes(s *shape) (ps []*probe) {
 
 	ps = append(ps, &probe{
 		family: "doh-get-short-param", only: "doh-get",
-		desc:   "dns= parameter of the header-only message with padding characters",
+		desc: "dns= parameter of the header-only message with padding characters",
 		build: func(id uint16) built {
 			t := tbench.Base64URL(s.base(id)[:13]) + "%3D%3D"
 
